@@ -25,10 +25,24 @@ ASSUMPTIONS = ['completeness is judged for groups of exactly two requests belong
 @st.composite
 def disjunction_case(draw, parallel=False):
     eq = draw(netgen.equipment(span=draw(netgen.span_entry(max_length=200, padding=10, eol=0))))
-    chain_kw = {'spans': (1, 2), 'fiber_kw': {'lumped': False, 'per_freq_loss': False}}
+    chain_kw = {'spans': (1, 2), 'fiber_kw': {'lumped': False, 'per_freq_loss': False}, 'fibreless': True}
     n = (2, 4) if parallel else (2, 6)
-    topo, truth = draw(netgen.topology(eq, n=n, extra_max=4, parallel=parallel, chain_kw=chain_kw,
-                                       per_degree=False, own_policy=False))
+    bridge = not parallel and draw(st.integers(0, 7)) == 0
+    if bridge:
+        # Wheatstone bridge: a-b, b-c, c-d short, a-c and b-d long; the shortest a->d route runs through the cross link b-c,
+        # and a second route can use that same link the other way (a-c-b-d)
+        chain_kw = dict(chain_kw, spans=(1, 1), fibreless=False)
+        topo, truth = draw(netgen.topology(eq, chain_kw=chain_kw, per_degree=False, own_policy=False, symmetric=True,
+                                           fixed_links=[(0, 1), (1, 2), (2, 3), (0, 2), (1, 3)]))
+        short = draw(st.sampled_from([20.0, 30.0, 40.0]))
+        for e in topo['elements']:
+            lk = netgen.link_of(e['uid'])
+            if e['type'] == 'Fiber' and lk is not None:
+                e['params']['length'] = short if lk[0] in (0, 1, 2) else draw(st.sampled_from([100.0, 120.0, 140.0]))
+                e['params'].pop('lumped_losses', None)
+    else:
+        topo, truth = draw(netgen.topology(eq, n=n, extra_max=4, parallel=parallel, chain_kw=chain_kw,
+                                           per_degree=False, own_policy=False))
     nreq = draw(st.integers(2, 5))
     reqs = []
     for i in range(nreq):
@@ -39,11 +53,27 @@ def disjunction_case(draw, parallel=False):
         inc = draw(services.include_list(truth, k_max=2)) if draw(st.integers(0, 2)) == 0 else []
         reqs.append({'src': src, 'dst': dst, 'include': inc})
     groups = []
-    for g in range(draw(st.integers(1, 3))):
+    shape = 'bridge' if bridge else draw(st.sampled_from(['random', 'random', 'protection', 'cycle']))
+    if bridge:
+        rev = draw(st.booleans())
+        reqs[0] = {'src': 3 if rev else 0, 'dst': 0 if rev else 3, 'include': []}
+        reqs[1] = dict(reqs[0])
+        groups.append([0, 1])
+    if shape == 'protection':
+        # 1+1 protection: two requests between the same end points that must be disjoint
+        reqs[1] = dict(reqs[1], src=reqs[0]['src'], dst=reqs[0]['dst'])
+        groups.append([0, 1])
+    elif shape == 'cycle' and nreq >= 3:
+        # three requests pairwise disjoint, declared as three pair groups (often between the same end points)
+        if draw(st.booleans()):
+            for i in (1, 2):
+                reqs[i] = dict(reqs[i], src=reqs[0]['src'], dst=reqs[0]['dst'])
+        groups += [[0, 1], [1, 2], [0, 2]]
+    for g in range(draw(st.integers(0 if groups else 1, 2 if groups else 3))):
         size = draw(st.integers(2, min(3, nreq)))
         members = draw(st.lists(st.integers(0, nreq - 1), min_size=size, max_size=size, unique=True))
         groups.append(members)
-    return {'eq': eq, 'topo': topo, 'truth': truth, 'requests': reqs, 'groups': groups}
+    return {'eq': eq, 'topo': topo, 'truth': truth, 'requests': reqs, 'groups': groups, 'shape': shape}
 
 
 def run(case, ctx):
@@ -90,7 +120,7 @@ def run(case, ctx):
     try:
         pths = compute_path_dsjctn(network, equipment, rqs, dsjn)
     except DisjunctionError:
-        ctx.label('outcome:disjunction-error')
+        ctx.label('outcome:disjunction-error', 'shape-error:' + case.get('shape', 'random'))
         interesting = False
         for g in groups:
             others = [h for h in groups if h is not g and set(h) & set(g)]
@@ -104,7 +134,7 @@ def run(case, ctx):
                 interesting = interesting or not sol
         ctx.nontrivial(interesting)
         return
-    ctx.label('outcome:paths')
+    ctx.label('outcome:paths', 'shape:' + case.get('shape', 'random'))
     by_id = {int(r.request_id): [e.uid for e in p] for r, p in zip(rqs, pths)}
     interesting = False
     for g in groups:
